@@ -91,8 +91,10 @@ def run_case(seed):
         count(f"limit={'finest' if L == pf.nlevels - 1 else 'coarser'}")
         desc = dict(seed=seed, variable=variable, limit_level=limit_arg, dtype=dtype, completion_order=order,
                     meta=pf.meta, field_names=keys)
-        outfile = os.path.join(core.scratch_dir(f"c10_{seed}_out"), 'grid')
-        os.makedirs(os.path.dirname(outfile))
+        # the successive runs of a case write to the SAME output path (the earlier array is replaced)
+        if k == 0:
+            outfile = os.path.join(core.scratch_dir(f"c10_{seed}_out"), 'grid')
+            os.makedirs(os.path.dirname(outfile))
         core.set_policy(order, seed + k)
         res = core.outcome(lambda: run_whip(path, variable, limit_arg, dtype, outfile))
         log = list(core.CPool.log)
@@ -141,6 +143,64 @@ def run_case(seed):
     return out
 
 
+SPAWN_SCRIPT = r"""
+import multiprocessing
+import sys
+
+if __name__ == '__main__':
+    multiprocessing.set_start_method(sys.argv[1])
+    import amr_kitchen.whip.cli as cli
+    sys.argv = ['whip'] + sys.argv[2:]
+    cli.main()
+"""
+
+
+def start_method_case(seed):
+    """whip run in a child process whose pool workers are NOT forked (start methods spawn / forkserver: the defaults outside
+    Linux): the workers see only what their task carries"""
+    import subprocess
+    rng = random.Random(seed)
+    out = dict(evals=0, keys=[core.khash('start-method', seed)], dist={}, samples=[], violations=[], disagreements=[])
+    pf = gen.gen_plotfile(rng, ndims=3, payload='ints', max_blocks=2, nfields=(3, 4), nlevels=2)
+    keys = c01.reader_keys(pf.fields)
+    root = core.scratch_dir(f"c10_spawn_{seed}")
+    os.makedirs(root)
+    path = os.path.join(root, 'plt00010')
+    gen.write_plotfile(pf, path)
+    script = os.path.join(root, 'run_whip.py')
+    with open(script, 'w') as f:
+        f.write(SPAWN_SCRIPT)
+    env = dict(os.environ, PYTHONPATH=core.REPO + os.pathsep + core.VERIF)
+    for k, method in enumerate(['spawn', 'forkserver', 'spawn']):
+        variable = keys[(seed + k) % len(keys)]
+        limit_arg = [None, 0, 1][k]
+        L = pf.nlevels - 1 if limit_arg is None else limit_arg
+        dtype = [None, 'float32', 'float64'][k]
+        outfile = os.path.join(root, f'grid{k}')
+        argv = ['-v', variable, '-y', '-o', outfile] + (['-l', str(limit_arg)] if limit_arg is not None else []) + \
+               (['-d', dtype] if dtype else []) + [path]
+        out['evals'] += 1
+        out['dist'][f"start method={method}"] = out['dist'].get(f"start method={method}", 0) + 1
+        desc = dict(seed=seed, case_fn='start_method_case', start_method=method, variable=variable, limit_level=limit_arg, dtype=dtype,
+                    meta=pf.meta, field_names=keys)
+        try:
+            r = subprocess.run([sys.executable, script, method] + argv, env=env, capture_output=True, text=True, timeout=240)
+        except subprocess.TimeoutExpired:
+            out['violations'].append(dict(desc, kind='wrong-output', what=f'whip under the {method} start method did not finish within 240 s'))
+            continue
+        want = c08.covering(pf, L, keys.index(variable)).astype(dtype or 'float64')
+        if r.returncode != 0 or not os.path.exists(outfile + '.npy'):
+            out['violations'].append(dict(desc, kind='wrong-output',
+                                          what=f'whip under the {method} start method failed: ' + (r.stderr.strip().splitlines() or ['no output file'])[-1][:300]))
+            continue
+        got = np.load(outfile + '.npy')
+        if got.dtype != want.dtype or got.shape != want.shape or got.tobytes() != want.tobytes():
+            out['violations'].append(dict(desc, kind='wrong-output',
+                                          what=(f"under the {method} start method the saved array is not the level-{L} covering grid of {variable!r}: "
+                                                f"{int((got != want).sum()) if got.shape == want.shape else '?'} cells differ")))
+    return out
+
+
 def run(tier, seed):
     rep = core.Report(PID, tier, seed)
     pg = core.proof_gate(PID, thorough=(tier == 'thorough'))
@@ -152,6 +212,8 @@ def run(tier, seed):
     ncases = 50 if tier == 'quick' else 600
     cases = [seed * 100000 + 10000 + i for i in range(ncases)]
     for r in core.run_cases(run_case, core.with_corpus(PID, cases)):
+        rep.merge(r)
+    for r in core.run_cases(start_method_case, [seed * 100000 + 10900 + i for i in range(1 if tier == 'quick' else 4)]):
         rep.merge(r)
     rep.obligation('correspondence: Whip.Whip.whip (extracted, fed the completion orders the controlled pool used) = the .npy written by '
                    'the whip entry point', not any(v[0].get('kind') == 'model-vs-impl' for v in rep.violations))
